@@ -222,6 +222,58 @@ type HookEv struct {
 	Rev  *Review // fire
 	From string  // fire on a conversion binding: the rule
 	To   string
+	// watch: the kubernetes bindings the shared informer hands this delivery to (the bindings of one
+	// namespace, ascending; the events of one delivery are consecutive) and this binding's place among them
+	Group []int
+	Pos   int
+}
+
+// group: the kubernetes bindings that watch what binding k watches - same kind, namespace and (no)
+// selectors, hence an equal FactoryIndex and ONE shared client-go informer - in configuration order.
+func (h *Hook) group(k int) []int {
+	var g []int
+	for j := range h.Kube {
+		if h.Kube[j].Ns == h.Kube[k].Ns {
+			g = append(g, j)
+		}
+	}
+	return g
+}
+
+// shared: some kubernetes bindings of the hook watch the same resource
+func (h *Hook) shared() bool {
+	for k := range h.Kube {
+		if len(h.group(k)) > 1 {
+			return true
+		}
+	}
+	return false
+}
+
+func sameJSON(a, b any) bool {
+	x, _ := json.Marshal(a)
+	y, _ := json.Marshal(b)
+	return string(x) == string(y)
+}
+
+// sharedErr: bindings that watch one resource list the same objects at start (every binding's Initial
+// carries them with that binding's own jqFilter / keepFullObjectsInMemory)
+func (h *Hook) sharedErr() string {
+	for k := range h.Kube {
+		g := h.group(k)
+		if g[0] != k {
+			a, b := h.Kube[g[0]].Initial, h.Kube[k].Initial
+			if len(a) != len(b) {
+				return "bindings of one namespace with different initial objects"
+			}
+			for i := range a {
+				if !sameJSON(a[i].Obj, b[i].Obj) {
+					return "bindings of one namespace with different initial objects"
+				}
+			}
+		}
+	}
+	return ""
 }
 
 // hookEvents replays the cluster operations of every kubernetes binding on a map (an operation on
@@ -254,33 +306,49 @@ func hookEvents(h *Hook, ops []Ctx) []HookEv {
 				evs = append(evs, ev)
 			}
 		case "apply", "delete":
-			if op.K < 0 || op.K >= len(h.Kube) || len(op.Objects) != 1 {
+			// a change of the cluster in the namespace of binding K: the (shared) informer of that namespace
+			// hands it to EVERY binding that watches the namespace; Objects carries the object once per such
+			// binding (configuration order), each time with that binding's jqFilter and the oracle's answer
+			if op.K < 0 || op.K >= len(h.Kube) {
+				continue
+			}
+			grp := h.group(op.K)
+			if len(op.Objects) != len(grp) {
 				continue
 			}
 			it := op.Objects[0]
 			if ns, _ := objMeta(it.Obj); ns != h.Kube[op.K].Ns {
 				continue
 			}
+			same := true
+			for _, o := range op.Objects[1:] {
+				same = same && sameJSON(o.Obj, it.Obj)
+			}
+			if !same {
+				continue
+			}
 			id := resourceID(it.Obj)
-			cur, exists := state[op.K][id]
+			cur, exists := state[grp[0]][id]
 			if op.Op == "delete" {
 				if exists {
-					evs = append(evs, HookEv{Op: "watch", K: op.K, Type: "Deleted", Item: cur})
-					delete(state[op.K], id)
+					for pos, j := range grp {
+						evs = append(evs, HookEv{Op: "watch", K: j, Type: "Deleted", Item: state[j][id], Group: grp, Pos: pos})
+						delete(state[j], id)
+					}
 				}
 				continue
 			}
+			typ := "Added"
 			if exists {
-				a, _ := json.Marshal(cur.Obj)
-				b, _ := json.Marshal(it.Obj)
-				if string(a) == string(b) {
+				if sameJSON(cur.Obj, it.Obj) {
 					continue
 				}
-				evs = append(evs, HookEv{Op: "watch", K: op.K, Type: "Modified", Item: it})
-			} else {
-				evs = append(evs, HookEv{Op: "watch", K: op.K, Type: "Added", Item: it})
+				typ = "Modified"
 			}
-			state[op.K][id] = it
+			for pos, j := range grp {
+				evs = append(evs, HookEv{Op: "watch", K: j, Type: typ, Item: op.Objects[pos], Group: grp, Pos: pos})
+				state[j][id] = op.Objects[pos]
+			}
 		}
 	}
 	return evs
@@ -310,13 +378,26 @@ func runHook(in Input) (obs Obs) {
 		watches.Add(int64(len(h.Kube)))
 	}
 	dyn := fc.Client.Dynamic().Resource(flowGVR)
+	if e := h.sharedErr(); e != "" {
+		obs.Err = e
+		return obs
+	}
+	// ninitial: the calls of handleWatchEvent when the informers replay the existing objects - one per
+	// object and binding that watches it (bindings of one namespace share the informer, not the handler)
 	ninitial := 0
-	for _, k := range h.Kube {
+	nwatches := 0
+	for i, k := range h.Kube {
+		first := h.group(i)[0] == i
+		if first {
+			nwatches++
+		}
 		for _, it := range k.Initial {
 			ns, _ := objMeta(it.Obj)
-			if _, err := dyn.Namespace(ns).Create(ctx, toUnstructured(it.Obj), metav1.CreateOptions{}); err != nil {
-				obs.Err = "initial: " + err.Error()
-				return obs
+			if first {
+				if _, err := dyn.Namespace(ns).Create(ctx, toUnstructured(it.Obj), metav1.CreateOptions{}); err != nil {
+					obs.Err = "initial: " + err.Error()
+					return obs
+				}
 			}
 			ninitial++
 		}
@@ -371,31 +452,52 @@ func runHook(in Input) (obs Obs) {
 			evOf = append(evOf, ev)
 		}
 	}
-	// KubeEvents delivered by the manager are handled as the operator's events handler does
-	take := func(ev int, want int) {
+	// KubeEvents delivered by the manager are handled as the operator's events handler does.  The
+	// handlers of a shared informer run in goroutines of their own: the KubeEvents of ONE delivery
+	// arrive in any order; they are collected until every handler has finished and then handled in
+	// the order of the bindings (the order in which the case lists the events of the delivery)
+	var buf []kemtypes.KubeEvent
+	drain := func() {
 		for {
 			select {
 			case kev := <-mgr.Ch():
-				if k, ok := monitorOf[kev.MonitorId]; !ok || k != want {
-					obs.Err = fmt.Sprintf("event %d: a KubeEvent of another monitor", ev)
-				}
-				hctl.HandleKubeEvent(kev, func(info controller.BindingExecutionInfo) { add(ev, info.BindingContext) })
+				buf = append(buf, kev)
 			default:
 				return
 			}
 		}
 	}
-	wait := func(ev, want int, target int64) bool {
+	wait := func(target int64) bool {
 		deadline := time.Now().Add(4 * time.Second)
 		for ms.handled.Load() < target {
-			take(ev, want)
+			drain()
 			if time.Now().After(deadline) {
 				return false
 			}
 			time.Sleep(100 * time.Microsecond)
 		}
-		take(ev, want)
+		drain()
 		return true
+	}
+	flush := func(ev int, group []int) {
+		sort.SliceStable(buf, func(a, b int) bool { return monitorOf[buf[a].MonitorId] < monitorOf[buf[b].MonitorId] })
+		for _, kev := range buf {
+			pos := -1
+			if k, ok := monitorOf[kev.MonitorId]; ok {
+				for p, j := range group {
+					if j == k {
+						pos = p
+					}
+				}
+			}
+			if pos < 0 {
+				obs.Err = fmt.Sprintf("event %d: a KubeEvent of another monitor", ev)
+				continue
+			}
+			e := ev + pos
+			hctl.HandleKubeEvent(kev, func(info controller.BindingExecutionInfo) { add(e, info.BindingContext) })
+		}
+		buf = nil
 	}
 
 	var infos []controller.BindingExecutionInfo
@@ -408,11 +510,11 @@ func runHook(in Input) (obs Obs) {
 		return obs
 	}
 	mgr.startAll()
-	if !wait(-1, -1, int64(ninitial)) {
+	if !wait(int64(ninitial)) {
 		obs.Err = "the informers did not replay the existing objects"
 		return obs
 	}
-	if len(all) > 0 {
+	if len(all) > 0 || len(buf) > 0 {
 		obs.Err = "a KubeEvent before the events were unlocked"
 		return obs
 	}
@@ -421,7 +523,7 @@ func runHook(in Input) (obs Obs) {
 	hctl.EnableScheduleBindings()
 	hctl.EnableAdmissionBindings()
 	hctl.EnableConversionBindings()
-	for deadline := time.Now().Add(4 * time.Second); watches.Load() < int64(len(h.Kube)); {
+	for deadline := time.Now().Add(4 * time.Second); watches.Load() < int64(nwatches); {
 		if time.Now().After(deadline) {
 			obs.Err = "the informers did not start their watches"
 			return obs
@@ -434,6 +536,9 @@ func runHook(in Input) (obs Obs) {
 		case "sync":
 			add(e, infos[ev.K].BindingContext)
 		case "watch":
+			if ev.Pos > 0 {
+				continue // handled with the first event of its delivery
+			}
 			ns, name := objMeta(ev.Item.Obj)
 			var err error
 			switch ev.Type {
@@ -448,11 +553,12 @@ func runHook(in Input) (obs Obs) {
 				obs.Err = fmt.Sprintf("event %d (%s): %v", e, ev.Type, err)
 				return obs
 			}
-			target++
-			if !wait(e, ev.K, target) {
+			target += int64(len(ev.Group))
+			if !wait(target) {
 				obs.Err = fmt.Sprintf("event %d (%s): the informer did not handle the watch event", e, ev.Type)
 				return obs
 			}
+			flush(e, ev.Group)
 		case "fire":
 			o := h.Other[ev.K]
 			rev := ev.Rev
@@ -666,6 +772,7 @@ func renderHook(in Input, obs *Obs, crash string) core.Case {
 	c.Tags = append(c.Tags, serverTags(in)...)
 	c.Tags = append(c.Tags, "kind:hook", "version:v1", fmt.Sprintf("hook:kubernetes-bindings=%d", len(h.Kube)),
 		fmt.Sprintf("hook:other-bindings=%d", len(h.Other)), fmt.Sprintf("hook:events=%d", len(evs)))
+	c.Tags = append(c.Tags, sharedTags(h, evs)...)
 	// bindings of different types that share a name
 	type bref struct {
 		typ, name string
